@@ -818,7 +818,10 @@ def c13(tier, seed, work):
     attach_scripts(ov)
     viols += ov
     cons = [F.console_family(work, "c13-nobody-s", True, "CmdsAC", 2, d, "KindsRetry", a, i),
-            F.console_family(work, "c13-nobody-n", False, "CmdsCR", 2, d, "KindsRetryNS", 1, 1)]
+            F.console_family(work, "c13-nobody-n", False, "CmdsCR", 2, d, "KindsRetryNS", 1, 1),
+            # refusals (a completion code and nothing else) of commands whose response has a body, then another call on the connection
+            F.console_family(work, "c13-refused-n", False, "CmdsAB", 2, 2, "KindsRetryNS", 1, 1, codes="CodesOkErr"),
+            F.console_family(work, "c13-refused-s", True, "CmdsAB", 2, 2, "KindsRetry", a, i, codes="CodesOkErr")]
     require_accepted(cons)
     cv = []
     for f in cons:
